@@ -299,13 +299,14 @@ GROUPS["g6"] = [
       "                pulldown_cmark::Event::SoftBreak => {\n                    tokens.push(Token {\n                        span: Span::new_with_len(traversed_chars, 1),",
       "                pulldown_cmark::Event::SoftBreak => {\n                    tokens.push(Token {\n                        span: Span::new_with_len(range.start, 1),",
       "R-C04-units:Markdown::parse:units"),
+    # the CodeBlock branch is gone and CodeBlock joins the tags whose text is lexed as prose
     E("c04-md-lex-codeblock", ["C04"], "harper-core/src/parsers/markdown.rs",
-      "                        if matches!(tag, Tag::CodeBlock(..)) {\n                            tokens.push(Token {\n                                span: Span::new_with_len(traversed_chars, text.chars().count()),\n                                kind: TokenKind::Unlintable,\n                            });\n                            continue;\n                        }",
-      "",
+      '                        if matches!(tag, Tag::CodeBlock(..)) {\n                            tokens.push(Token {\n                                span: Span::new_with_len(traversed_chars, range_chars),\n                                kind: TokenKind::Unlintable,\n                            });\n                            continue;\n                        }\n                        if matches!(tag, Tag::Link { .. }) && self.options.ignore_link_title {\n                            tokens.push(Token {\n                                span: Span::new_with_len(traversed_chars, range_chars),\n                                kind: TokenKind::Unlintable,\n                            });\n                            continue;\n                        }\n                        if !(matches!(tag, Tag::Paragraph)\n                            || matches!(tag, Tag::Link { .. }) && !self.options.ignore_link_title\n                            || matches!(tag, Tag::Heading { .. })\n                            || matches!(tag, Tag::Item)\n                            || matches!(tag, Tag::TableCell)\n                            || matches!(tag, Tag::Emphasis)\n                            || matches!(tag, Tag::Strong)\n                            || matches!(tag, Tag::Strikethrough))',
+      '                        if matches!(tag, Tag::Link { .. }) && self.options.ignore_link_title {\n                            tokens.push(Token {\n                                span: Span::new_with_len(traversed_chars, range_chars),\n                                kind: TokenKind::Unlintable,\n                            });\n                            continue;\n                        }\n                        if !(matches!(tag, Tag::Paragraph)\n                            || matches!(tag, Tag::Link { .. }) && !self.options.ignore_link_title\n                            || matches!(tag, Tag::Heading { .. })\n                            || matches!(tag, Tag::Item)\n                            || matches!(tag, Tag::TableCell)\n                            || matches!(tag, Tag::Emphasis)\n                            || matches!(tag, Tag::Strong)\n                            || matches!(tag, Tag::Strikethrough)\n                            || matches!(tag, Tag::CodeBlock(..)))',
       "R-C04-filter:Markdown::parse:english-call"),
     E("c04-md-code-lintable", ["C04"], "harper-core/src/parsers/markdown.rs",
-      "                    let chunk_len = code.chars().count();\n\n                    tokens.push(Token {\n                        span: Span::new_with_len(traversed_chars, chunk_len),\n                        kind: TokenKind::Unlintable,",
-      "                    let chunk_len = code.chars().count();\n\n                    tokens.push(Token {\n                        span: Span::new_with_len(traversed_chars, chunk_len),\n                        kind: TokenKind::Word(None),",
+      "                | pulldown_cmark::Event::Code(_) => {\n                    tokens.push(Token {\n                        span: Span::new_with_len(traversed_chars, range_chars),\n                        kind: TokenKind::Unlintable,",
+      "                | pulldown_cmark::Event::Code(_) => {\n                    tokens.push(Token {\n                        span: Span::new_with_len(traversed_chars, range_chars),\n                        kind: TokenKind::Word(None),",
       "R-C04-filter:Markdown::parse:non-prose-unlintable"),
     E("c04-all-nodes", ["C04"], "harper-comments/src/comment_parser.rs",
       "n.kind().contains(\"comment\")", "n.kind().contains(\"\")",
@@ -1022,4 +1023,16 @@ GROUPS["g29"] = [
     E("c18-latin-exact-word", ["C18"], "harper-core/src/document.rs",
       "SequencePattern::aco(\"et\")", "SequencePattern::default().then_exact_word(\"et\")",
       "R-C18-idem:Document::uncached_latin_pattern:case-free"),
+]
+
+
+# C04: without its own branch a code block's text falls through to the tag list, which does not name CodeBlock: it is
+# skipped, not lexed (the Unlintable token is gone, the property "no code is offered as prose" still holds).  The check
+# used to report this as "the English parser is reached without a CodeBlock test"; it now counts the arms of the other
+# variants as negative tests.
+GROUPS["p17"] = [
+    E("p-c04-md-codeblock-falls-through", ["C04"], "harper-core/src/parsers/markdown.rs",
+      '                        if matches!(tag, Tag::CodeBlock(..)) {\n                            tokens.push(Token {\n                                span: Span::new_with_len(traversed_chars, range_chars),\n                                kind: TokenKind::Unlintable,\n                            });\n                            continue;\n                        }\n',
+      "",
+      None),
 ]
